@@ -5,7 +5,8 @@
    Case kinds "ip.hist" (client.MeasureClockOffsetIP), "scion.hist" (client.MeasureClockOffsetSCION, client
    without packet authentication), "scion.auth" (SCIONClient with Auth.Enabled: DRKey host-host key, packet
    authenticator), "scion.nts" / "scion.ntsauth" (NTS over SCION, without / with the packet authenticator),
-   "scion.allfail" / "scion.allfailauth" (calls in which no datagram is acceptable):
+   "scion.allfail" / "scion.allfailauth" (calls in which no datagram is acceptable), "scion.addrtype" (the bytes
+   of the queried / the client's host under every address type and length the SCION header can express):
      args = cfg table ops
        cfg   = [scion imode nts deadline server server_ia local_ia local]
        table = [[key nonce ad ct ok pt] ...]   AEAD Open answers recomputed by the harness with miscreant
@@ -17,7 +18,8 @@
                 spao_ok = 0: the client holds the host-host key and the datagram carries, in an end-to-end extension,
                 an authenticator for the server's SPI and algorithm whose MAC does not verify)
        front = src (IP)  |  [decode_ok nlayers last len_ok src_ia dst_ia src_host dst_host e2e tsopt auth] (SCION;
-               hosts and tsopt: -1 = none; auth: 0 no authenticator the client looks at, 1 MAC ok, 2 MAC wrong;
+               hosts: the host as an unmapped IPv4 address, -1 = the header's address type is not IPv4 / IPv6 host, or the
+               bytes are not an IPv4(-mapped) address; tsopt: -1 = none; auth: 0 no authenticator the client looks at, 1 MAC ok, 2 MAC wrong;
                authkey in xchg: the client fetched the host-host key for this exchange)
      outs  = [[code off [[cls [org_s org_f rx_s rx_f tx_s tx_f] [t0 t1 t2 t3 off]] ...] [pool-cookie ...]] ...]   one per call
              (pool: the fetcher's cookie pool after the call, through the VerifData hook; empty without NTS)
@@ -265,7 +267,7 @@ Fixpoint calls_ok (nts : bool) (prev : list time64) (before : list bytes) (ops :
 
 Definition glue_C05 (k : string) (a o : list value) : option verdict :=
   if is k "ip.hist" || is k "scion.hist" || is k "scion.allfail" || is k "scion.auth" || is k "scion.nts" ||
-     is k "scion.ntsauth" || is k "scion.allfailauth" then
+     is k "scion.ntsauth" || is k "scion.allfailauth" || is k "scion.addrtype" then
     match a with
     | [cfgv; VL tabv; VL opsv] =>
         match parse_cfg cfgv, table_of tabv, parse_ops opsv with
